@@ -331,7 +331,9 @@ def execute(plan):
                     if cur["noise"] is None:
                         continue               # the drivers rank solutions by sum capacity, which needs a noise variance
                     drv = ALG.GreedStreamIASolver(solver) if op["how"] == "greedy" else ALG.BruteForceStreamIASolver(solver)
-                    ns_max = [min(x, 2) for x in cur["Ns"]] if op["how"] == "brute" else list(cur["Ns"])
+                    # the stream configuration of the PLAN (the one the solver and its initialisation are defined on), not what an
+                    # earlier search left behind: e.g. the closed-form initialisation needs equal stream counts
+                    ns_max = [min(x, 2) for x in Ns] if op["how"] == "brute" else list(Ns)
                     m["handed_P"] = None
                     drv.solve(np.array(ns_max), py_P(op["P"]))
                     solver.initialize_with = plan["init"]       # the drivers leave 'fix' / 'svd' behind; the caller sets its own mode again
